@@ -129,7 +129,7 @@ def prog_from_listing(lines):
 def main():
     ck = Check('C15')
     ck.cov['trusted_base'] = ['Coq 8.16.1 kernel + VM', 'Isa.v, AsmSpec.check_symtab (spec)', 'SimModel.v (lookupSymbol / trace prefix) and AsmLayout.v hand models, tied by this run',
-                              'extraction + c02drv.ml (c15trace)', 'the built xcmp and hexsim executables; regex reading of trace lines; reference call sequence of the generated program family (python)']
+                              'extraction + ocaml/simtracedrv.ml (c15text: hex transport of the text)', 'SimTraceText.v: Coq printer of the trace line prefix, compared verbatim with the real lines (the regex reading is a cross-check only)', 'the built xcmp and hexsim executables; reference call sequence of the generated program family (python)']
     ck.assumptions = ['"entries = call sequence of the source" is decided per explored program (needs compiler correctness, C01), not proved',
                       'programs write nothing to the console so that trace lines stay parseable']
     ok = ck.proofs()
@@ -159,6 +159,7 @@ def main():
     ocases, ometa = [], []
     nbad = 0
     lines_total = 0
+    text_lines = 0
     dist = {}
     for k, (src, seq, names, tag) in enumerate(progs):
         d = os.path.join(base, 'p%d' % k)
@@ -186,44 +187,60 @@ def main():
         ip = os.path.join(d, 'in')
         open(ip, 'wb').write(inp)
         rc2, o2, e2 = run3([hexsim, '-t', 'p.bin', '--max-cycles', '150000'], cwd=d, stdin=open(ip, 'rb'), timeout=120)
-        rc3, o3, e3 = run3(vlib.big_stack([hv, 'c15trace', pb, '150001']), cwd=d, stdin=open(ip, 'rb'), timeout=300)
-        real = []
+        # c15text = c15trace + for every step the TEXT hexsim prints at the start of the line, produced by the extracted Coq
+        # printer SimTraceText.prefix_text of the structured prefix (theorem C15_trace_line_text)
+        rc3, o3, e3 = run3(vlib.big_stack([hv, 'c15text', pb, '150001']), cwd=d, stdin=open(ip, 'rb'), timeout=600)
+        rawlines = [l for l in o2.split(b'\n') if l != b'']
+        real = []          # the regex reading of the real lines: kept as a cross-check only
         for l in o2.decode('latin1').split('\n'):
             m = LINE.match(l)
             if m and m.group(4) in MNEM:
                 real.append('%s %s %s %d %s' % (m.group(1), m.group(2), m.group(3) or '-', MNEM[m.group(4)], m.group(5)))
-        exp = [l for l in o3.decode().split('\n') if l.strip()]
-        if rc3 != 0 or not exp or exp[0].startswith('LOADREJECT'):
+        exp, exptext = [], []
+        for l in o3.decode('latin1').split('\n'):
+            if l.strip() and '\t' in l:
+                a, b = l.split('\t')
+                exp.append(a)
+                exptext.append(bytes.fromhex(b))
+        if rc3 != 0 or not exp or o3.startswith(b'LOADREJECT'):
             ck.broken.append('the extracted trace run failed on a compiled program (rc=%d): %s' % (rc3, (o3 + e3).decode('latin1')[-200:]))
             continue
-        if not real:
+        if not rawlines:
             nbad += 1
             ck.violation('hexsim -t printed no trace line for a compiled program (status %d, stderr %r)' % (rc2, e2.decode('latin1')[:120]),
                          {'source': src.decode(), 'calls': seq, 'names': names}, tags={'kind': 'trace'})
             continue
         ck.cov['evaluations'] += 1
-        lines_total += len(real)
-        ncmp = min(len(real), len(exp))
-        diff = next((i for i in range(ncmp) if real[i] != exp[i]), None)
-        if diff is None and abs(len(real) - len(exp)) > 1:
+        lines_total += len(rawlines)
+        ncmp = min(len(rawlines), len(exp))
+        # the oracle: every real line starts, byte for byte, with the text of the instruction executing at that step
+        diff = next((i for i in range(ncmp) if not rawlines[i].startswith(exptext[i])), None)
+        if diff is None and abs(len(rawlines) - len(exp)) > 1:
             diff = ncmp
         if diff is not None:
             nbad += 1
             if nbad <= 3:
-                ck.violation('trace line %d of hexsim -t reads [%s], the instruction executing is [%s] (n pc symbol opcode nibble)' %
-                             (diff, real[diff] if diff < len(real) else 'missing', exp[diff] if diff < len(exp) else 'missing'),
+                ck.violation('trace line %d of hexsim -t starts [%s], the instruction executing is [%s] (n pc symbol opcode nibble), whose line starts [%s]' %
+                             (diff, rawlines[diff][:60].decode('latin1') if diff < len(rawlines) else 'missing', exp[diff] if diff < len(exp) else 'missing',
+                              exptext[diff].decode('latin1') if diff < len(exp) else ''),
                              {'source': src.decode(), 'calls': seq, 'names': names, 'line': diff}, tags={'kind': 'trace'})
             continue
+        text_lines += ncmp
+        # cross-check: the regular-expression reader sees the same five columns
+        if real[:ncmp] != exp[:ncmp]:
+            k2 = next((i for i in range(min(len(real), ncmp)) if real[i] != exp[i]), min(len(real), ncmp))
+            ck.broken.append('trace readers disagree at line %d: regular expression [%s], Coq text/structured prefix [%s]; source %r'
+                             % (k2, real[k2] if k2 < len(real) else 'missing', exp[k2] if k2 < len(exp) else 'missing', src.decode()[:200]))
         # entries = call sequence of the source
         if seq is not None:
-            entries = [l.split()[2].split('+')[0] for l in real if l.split()[2].endswith('+0')]
-            cut = len(real) >= 150000          # the run was cut by --max-cycles: only a prefix of the calls was traced
+            entries = [l.split()[2].rsplit('+', 1)[0] for l in exp[:ncmp] if l.split()[2].endswith('+0')]      # lines verified verbatim above
+            cut = ncmp >= 150000          # the run was cut by --max-cycles: only a prefix of the calls was traced
             if (entries != seq) if not cut else (entries != seq[:len(entries)]):
                 nbad += 1
                 ck.violation('procedure entries in the trace %s differ from the call sequence of the source %s' % (entries[:12], seq[:12]),
                              {'source': src.decode(), 'calls': seq, 'names': names}, tags={'kind': 'entries'})
             elif len(ck.cov['samples']) < 5 and k % 9 == 0:
-                ck.sample({'source_head': src.decode()[:160], 'trace_lines': len(real), 'entries': entries[:10], 'symbols': syms})
+                ck.sample({'source_head': src.decode()[:160], 'trace_lines': ncmp, 'entries': entries[:10], 'symbols': syms})
     nasm = 300 if not ck.thorough() else 20000
     acases = [c for c in A.standard_cases(ck, nasm, nasm, 'C15') if c['items'] is not None and any(it[0] == 'label' and it[1] in ('func', 'proc') for it in c['items'])]
     pr = A.pipeline(ck, acases, need_model=False)
@@ -244,6 +261,7 @@ def main():
     ck.cov['rule'] = 'generated X programs (1-10 procedures/functions in shuffled order, DAG calls, self recursion, never-called procedures, varied body sizes) + fib/fac; each distinct; non-trivial = compiled and traced'
     ck.cov['input_distribution'] = dist
     ck.cov['trace_lines_compared'] = lines_total
+    ck.cov['trace_text'] = {'lines_matching_coq_text_verbatim': text_lines, 'printer': 'extracted SimTraceText.prefix_text (C15_trace_line_text)', 'regex': 'cross-check only'}
     ck.log('programs %d, trace lines %d, failures %d' % (len(progs), lines_total, nbad))
     ck.finish()
 
